@@ -423,3 +423,150 @@ Proof.
   destruct (pick block st sched) as [[t rest]|]; [apply IH; apply step_no_internal_error; exact H0|].
   destruct (first_runnable block st (length (s_threads st)) 0) as [t|]; [apply IH; apply step_no_internal_error; exact H0|exact H0].
 Qed.
+
+(* ---------- progress: without close() nobody waits for ever ---------- *)
+Definition close_pc (p : pc) : bool := match p with PCloseCheck | PCloseSwap | PDrain => true | _ => false end.
+Definition calm (th : thread) : Prop := ~ In Close (t_ops th) /\ close_pc (t_pc th) = false.
+
+Record inv2 (maxsize : nat) (block : bool) (st : state) : Prop := mkInv2 {
+  j_open_pool : s_closed st = false;
+  j_calm : Forall calm (s_threads st);
+  j_exact : block = true -> length (s_q st) + tokens (s_threads st) = maxsize
+}.
+
+Lemma calm_finish th o : calm th -> calm (finish th o).
+Proof.
+  intros [Hc _]. unfold finish. destruct (t_ops th) as [|x r]; cbn [tl]; [split; [intros []|reflexivity]|].
+  destruct r as [|y r']; [split; [intros []|reflexivity]|]. split; [|reflexivity]. cbn [t_ops]. intros Hin. apply Hc. right. exact Hin.
+Qed.
+Lemma token_finish th o : token (finish th o) = 0.
+Proof. unfold finish. destruct (tl (t_ops th)); reflexivity. Qed.
+
+Lemma forall_split_calm A th B th' : Forall calm (A ++ th :: B) -> calm th' -> Forall calm (A ++ th' :: B).
+Proof.
+  intros H Hc. apply Forall_app in H as [HA HB]. apply Forall_cons_iff in HB as [_ HB].
+  apply Forall_app. split; [exact HA|constructor; assumption].
+Qed.
+
+Lemma step_inv2 ws maxsize block st t :
+  inv2 maxsize block st -> runnable block st t = true -> inv2 maxsize block (step ws maxsize block st t).
+Proof.
+  intros [J1 J2 J3] Hrun.
+  destruct (Nat.lt_ge_cases t (length (s_threads st))) as [Hlt|Hge].
+  2:{ unfold step, get_thread. rewrite (nth_overflow _ _ Hge). constructor; assumption. }
+  destruct (threads_split st t Hlt) as (A & B & Hs & Hset).
+  assert (Hth : calm (get_thread st t)).
+  { rewrite Hs in J2. apply Forall_app in J2 as [_ J2]. apply Forall_cons_iff in J2 as [J2 _]. exact J2. }
+  assert (Htok : block = true -> length (s_q st) + (token (get_thread st t) + tokens A + tokens B) = maxsize)
+    by (intros Hb; rewrite <- tokens_split, <- Hs; apply J3; exact Hb).
+  rewrite Hs in J2.
+  unfold runnable in Hrun. unfold step. set (th := get_thread st t) in *. rewrite J1.
+  assert (Hat : forall p, close_pc p = false -> calm (at_pc th p)) by (intros p Hp; destruct Hth as [Hc _]; split; assumption).
+  assert (Hmk : forall p f, close_pc p = false -> calm (mkThread (t_ops th) p f (t_outs th))) by (intros p f Hp; destruct Hth as [Hc _]; split; assumption).
+  destruct (t_pc th) eqn:Hpc; rewrite ?Hset; cbn [negb andb].
+  - (* PStart *)
+    destruct (t_ops th) as [|[| |] ops] eqn:Hops.
+    + constructor; cbn [s_closed s_threads s_q]; [reflexivity|apply (forall_split_calm A th B); [exact J2|apply Hat; reflexivity]|].
+      intros Hb. rewrite tokens_split. specialize (Htok Hb). unfold token in *. rewrite Hpc in Htok. cbn [t_pc at_pc]. exact Htok.
+    + constructor; cbn [s_closed s_threads s_q]; [reflexivity|apply (forall_split_calm A th B); [exact J2|apply Hmk; reflexivity]|].
+      intros Hb. rewrite tokens_split. specialize (Htok Hb). unfold token in *. rewrite Hpc in Htok. cbn [t_pc]. exact Htok.
+    + constructor; cbn [s_closed s_threads s_q]; [reflexivity|apply (forall_split_calm A th B); [exact J2|apply Hmk; reflexivity]|].
+      intros Hb. rewrite tokens_split. specialize (Htok Hb). unfold token in *. rewrite Hpc in Htok. cbn [t_pc]. exact Htok.
+    + exfalso. destruct Hth as [Hc _]. apply Hc. rewrite Hops. left. reflexivity.
+  - (* PGetCheck *)
+    constructor; cbn [s_closed s_threads s_q]; [reflexivity|apply (forall_split_calm A th B); [exact J2|apply Hat; reflexivity]|].
+    intros Hb. rewrite tokens_split. specialize (Htok Hb). unfold token in *. rewrite Hpc in Htok. cbn [t_pc at_pc]. exact Htok.
+  - (* PGetRead *)
+    constructor; cbn [s_closed s_threads s_q]; [reflexivity|apply (forall_split_calm A th B); [exact J2|apply Hat; reflexivity]|].
+    intros Hb. rewrite tokens_split. specialize (Htok Hb). unfold token in *. rewrite Hpc in Htok. cbn [t_pc at_pc]. exact Htok.
+  - (* PGet *)
+    destruct (s_q st) as [|[c|] q'] eqn:Hq; rewrite ?Hset.
+    + constructor; cbn [s_closed s_threads s_q tl]; [reflexivity|apply (forall_split_calm A th B); [exact J2|apply Hat; reflexivity]|].
+      intros Hb. rewrite Hb in Hrun. discriminate.
+    + constructor; cbn [s_closed s_threads s_q]; [reflexivity|apply (forall_split_calm A th B); [exact J2|apply Hat; reflexivity]|].
+      intros Hb. rewrite tokens_split. specialize (Htok Hb). unfold token in *. rewrite Hpc in Htok. cbn [t_pc at_pc length] in *. lia.
+    + constructor; cbn [s_closed s_threads s_q tl]; [reflexivity|apply (forall_split_calm A th B); [exact J2|apply Hat; reflexivity]|].
+      intros Hb. rewrite tokens_split. specialize (Htok Hb). unfold token in *. rewrite Hpc in Htok. cbn [t_pc at_pc length] in *. lia.
+  - (* PUse *)
+    destruct (t_fail th); rewrite ?Hset;
+      (constructor; cbn [s_closed s_threads s_q]; [reflexivity|apply (forall_split_calm A th B); [exact J2|apply Hat; reflexivity]|]);
+      intros Hb; rewrite tokens_split; specialize (Htok Hb); unfold token in *; rewrite Hpc in Htok; cbn [t_pc at_pc]; exact Htok.
+  - (* PPutCheck *)
+    constructor; cbn [s_closed s_threads s_q]; [reflexivity|apply (forall_split_calm A th B); [exact J2|apply Hat; reflexivity]|].
+    intros Hb. rewrite tokens_split. specialize (Htok Hb). unfold token in *. rewrite Hpc in Htok. cbn [t_pc at_pc]. exact Htok.
+  - (* PPutRead *)
+    constructor; cbn [s_closed s_threads s_q]; [reflexivity|apply (forall_split_calm A th B); [exact J2|apply Hat; reflexivity]|].
+    intros Hb. rewrite tokens_split. specialize (Htok Hb). unfold token in *. rewrite Hpc in Htok. cbn [t_pc at_pc]. exact Htok.
+  - (* PPut *)
+    destruct (Nat.ltb_spec (length (s_q st)) maxsize) as [Hroom|Hfull]; rewrite ?Hset.
+    + constructor; cbn [s_closed s_threads s_q]; [reflexivity|apply (forall_split_calm A th B); [exact J2|apply calm_finish; exact Hth]|].
+      intros Hb. rewrite tokens_split, token_finish. specialize (Htok Hb). unfold token in Htok. rewrite Hpc in Htok. cbn [length]. lia.
+    + destruct block eqn:Hblk.
+      * (* a full queue cannot happen on a blocking pool whose slots are all accounted for *)
+        exfalso. specialize (Htok eq_refl). unfold token in Htok. rewrite Hpc in Htok. lia.
+      * constructor; cbn [s_closed s_threads s_q]; [reflexivity|apply (forall_split_calm A th B); [exact J2|apply Hat; reflexivity]|discriminate].
+  - (* PWarn *)
+    constructor; cbn [s_closed s_threads s_q]; [reflexivity|apply (forall_split_calm A th B); [exact J2|apply calm_finish; exact Hth]|].
+    intros Hb. rewrite tokens_split, token_finish. specialize (Htok Hb). unfold token in Htok. rewrite Hpc in Htok. exact Htok.
+  - destruct Hth as [_ Hc]. rewrite Hpc in Hc. discriminate.
+  - destruct Hth as [_ Hc]. rewrite Hpc in Hc. discriminate.
+  - destruct Hth as [_ Hc]. rewrite Hpc in Hc. discriminate.
+  - constructor; [exact J1|rewrite Hs; exact J2|exact J3].
+Qed.
+
+Lemma inv2_init maxsize block progs : Forall (fun ops => ~ In Close ops) progs -> inv2 maxsize block (init maxsize progs).
+Proof.
+  intros H. constructor; unfold init; cbn [s_closed s_threads s_q].
+  - reflexivity.
+  - apply Forall_map. eapply Forall_impl; [|exact H]. intros ops Ho. split; [exact Ho|reflexivity].
+  - intros _. rewrite tokens_start, repeat_length. lia.
+Qed.
+
+Lemma run_inv2 ws maxsize block fuel : forall st sched, inv2 maxsize block st -> inv2 maxsize block (run ws fuel maxsize block st sched).
+Proof.
+  induction fuel as [|f IH]; intros st sched Hi; cbn [run]; [exact Hi|].
+  destruct (pick block st sched) as [[t rest]|] eqn:Hp.
+  - apply IH. apply step_inv2; [exact Hi|].
+    clear - Hp. induction sched as [|x r IHs]; cbn [pick] in Hp; [discriminate|].
+    destruct (runnable block st x) eqn:Hr; [inversion Hp; subst; exact Hr|apply IHs; exact Hp].
+  - destruct (first_runnable block st (length (s_threads st)) 0) as [t|] eqn:Hf; [|exact Hi].
+    apply IH. apply step_inv2; [exact Hi|].
+    clear - Hf. revert Hf. generalize 0 as k. induction (length (s_threads st)) as [|n IHn]; intros k Hf; cbn [first_runnable] in Hf; [discriminate|].
+    destruct (runnable block st k) eqn:Hr; [inversion Hf; subst; exact Hr|apply (IHn (S k)); exact Hf].
+Qed.
+
+Lemma tokens_pos ths : 1 <= tokens ths -> exists th, In th ths /\ token th = 1.
+Proof.
+  induction ths as [|th r IH]; intros H; [cbn in H; lia|].
+  unfold tokens in H. cbn [map] in H. change (list_sum (token th :: map token r)) with (token th + tokens r) in H.
+  assert (Ht : token th = 0 \/ token th = 1) by (unfold token; destruct (t_pc th); auto).
+  destruct Ht as [Ht|Ht]; [|exists th; split; [left; reflexivity|exact Ht]].
+  destruct IH as (x & Hx & Hxt); [lia|]. exists x. split; [right; exact Hx|exact Hxt].
+Qed.
+
+Lemma in_nth_index {A} (x : A) l d : In x l -> exists i, i < length l /\ nth i l d = x.
+Proof. intros H. apply In_nth with (d := d) in H. destruct H as (i & Hi & Hn). exists i. split; assumption. Qed.
+
+(* as long as some thread has work left, some thread can move: nobody waits for ever, no slot is lost *)
+Theorem progress_without_close ws maxsize block progs fuel sched :
+  Forall (fun ops => ~ In Close ops) progs -> 1 <= maxsize ->
+  let st := run ws fuel maxsize block (init maxsize progs) sched in
+  (exists th, In th (s_threads st) /\ t_pc th <> PIdle) ->
+  exists t, t < length (s_threads st) /\ runnable block st t = true.
+Proof.
+  intros Hnc Hm st.
+  pose proof (run_inv2 ws maxsize block fuel (init maxsize progs) sched (inv2_init maxsize block progs Hnc)) as Hi. fold st in Hi.
+  clearbody st. intros (th & Hin & Hnid).
+  destruct Hi as [J1 J2 J3].
+  destruct (in_nth_index th (s_threads st) idle_thread Hin) as (i & Hi & Hn).
+  destruct (runnable block st i) eqn:Hr; [exists i; split; assumption|].
+  (* thread i is parked in get on an empty queue of a blocking pool *)
+  unfold runnable, get_thread in Hr. rewrite Hn in Hr.
+  destruct (t_pc th) eqn:Hpc; try discriminate; [|contradiction].
+  apply negb_false_iff in Hr. apply andb_true_iff in Hr as [Hb Hq]. specialize (J3 Hb).
+  destruct (s_q st) as [|e q'] eqn:Hqe; [|discriminate]. cbn [length] in J3.
+  destruct (tokens_pos (s_threads st)) as (x & Hx & Hxt); [lia|].
+  destruct (in_nth_index x (s_threads st) idle_thread Hx) as (k & Hk & Hkn).
+  exists k. split; [exact Hk|]. unfold runnable, get_thread. rewrite Hkn.
+  unfold token in Hxt. destruct (t_pc x); try discriminate; reflexivity.
+Qed.
